@@ -1164,6 +1164,9 @@ PERSIST_TEMPLATES = {
     "loop_first_augmented": "n = 0\nwhile True:\n    if n == 0:\n        total = {c1}\n    total += {k}\n    n += 1\n    mon.write(total)\n",
     "loop_first_helper_reads": "n = 0\ndef show():\n    mon.write(cnt)\nwhile True:\n    if n == 0:\n        cnt = {c1}\n    cnt = cnt + {k}\n    n = n + 1\n    show()\n",
     "loop_first_try": "n = 0\nwhile True:\n    try:\n        if n == 0:\n            lvl = {c1}\n    except:\n        lvl = {c2}\n    lvl = lvl + {k}\n    n = n + 1\n    mon.write(lvl)\n",
+    "loop_first_if_for": "n = 0\nwhile True:\n    if n < 2:\n        for i in range(1 - n):\n            z = {c1}\n    n = n + 1\n    mon.write(z)\n",
+    "loop_first_try_while": "n = 0\nwhile True:\n    try:\n        k = 1 - n\n        while k > 0:\n            z = {c1}\n            k = k - 1\n    except:\n        mon.write(\"m9\")\n    n = n + 1\n    mon.write(z)\n",
+    "setup_if_for": "for r in range(2):\n    if r < 2:\n        for i in range(1 - r):\n            z = {c1}\n    mon.write(z)\nwhile True:\n    z = z + {k}\n    mon.write(z)\n",
     # a name hoisted out of a loop that is itself inside a loop of the prologue (repair of F-C01-hoisted-decl-reinit)
     "setup_double_hoist": "w = 0\nwhile w < 2:\n    for k in range(1 - w):\n        z = {c1}\n    w = w + 1\n    mon.write(z)\nwhile True:\n    z = z + {k}\n    mon.write(z)\n",
 }
